@@ -85,6 +85,9 @@ type NegCase struct {
 	In      []Item     `json:"in"`
 	TLSIn   []Item     `json:"tls_in,omitempty"`
 	Outs    []Outcome  `json:"outs,omitempty"`
+	// TeeFirst says which negotiator.go the case was observed on (coq: c_teefirst):
+	// true when `first` survives the tee-wrapping call (C02's repair), false on main.
+	TeeFirst bool `json:"tee_first,omitempty"`
 }
 
 // REvent is one entry of the unified observation log (coq: revent).
@@ -574,7 +577,7 @@ func CoqConfig(c NegCase) string {
 	if c.TLSName != nil {
 		tn = "(Some " + CoqStr(*c.TLSName) + ")"
 	}
-	return fmt.Sprintf("(mkCfg %s %s %s %s %s %s)", coqList(fs), CoqBool(c.Tee != 0), CoqBool(c.WS), CoqBool(c.HsOK), CoqStr(c.Domain), tn)
+	return fmt.Sprintf("(mkCfg %s %s %s %s %s %s %s)", coqList(fs), CoqBool(c.Tee != 0), CoqBool(c.WS), CoqBool(c.HsOK), CoqStr(c.Domain), tn, CoqBool(c.TeeFirst))
 }
 
 // CoqNegCase renders `mkNCase cfg bits in tls outs choices class bits' trace`.
